@@ -215,6 +215,27 @@ def u_histories(c):
     c.oblige("post/no-step-raises-and-nothing-is-logged-as-an-error", not any(not b.startswith("(") for b in bad))
 
 
+@unit("C16", "write-failure-kind", [(M, "WebSocketProtocol13.write_message"), (M, "WebSocketHandler.write_message"), (M, "WebSocketProtocol13._write_frame")],
+      bounded="finite case analysis: 6 ways the connection is (being) lost when the application writes x text / binary / large message")
+def u_write_failure(c):
+    """'writes after closing fail with WebSocketClosedError' - also when the loss is discovered by the write itself (the peer vanished with a reset the loop has not seen):
+    a write either is refused at once with WebSocketClosedError, or its future ends in success or in WebSocketClosedError - never in a stream-level error"""
+    from pyvc.standin import wsharness as H
+    how = c.choose("connection", ["reset-unnoticed", "message-then-reset-unnoticed", "peer-disconnected", "closed-locally", "peer-closed", "stalled-then-reset"])
+    msg = c.choose("message", ["text", b"binary", "x" * 70000])
+    pre = {"reset-unnoticed": [("reset",)], "message-then-reset-unnoticed": [("peer", H.enc_frame(1, b"hi", mask=b"abcd")), ("reset",)], "peer-disconnected": [("eof",)],
+           "closed-locally": [("close", 1000, "bye")], "peer-closed": [("peer", H.enc_frame(8, struct.pack(">H", 1000), mask=b"abcd"))], "stalled-then-reset": [("stall",), ("write", "queued"), ("reset",)]}[how]
+    r = H.session(pre + [("write", msg), ("advance", 0.5), ("write", "again"), ("advance", 6.0)])
+    c.cover("write-failure/" + how)
+    ev = r["events"]
+    outcomes = [e for e in ev if e[0] in ("write-outcome", "write-refused", "step-raised")]
+    c.values = {"outcomes": outcomes, "logs": r["logs"][:2]}
+    c.oblige("post/a-write-is-refused-with-WebSocketClosedError-or-its-future-ends-in-success-or-WebSocketClosedError",
+             all((e[0] == "write-refused" and e[1] == "WebSocketClosedError") or (e[0] == "write-outcome" and e[2] in ("sent", "WebSocketClosedError")) for e in outcomes))
+    c.oblige("post/every-accepted-write-is-settled-by-the-time-the-connection-is-gone", sum(1 for e in ev if e[0] == "write-accepted") == sum(1 for e in ev if e[0] == "write-outcome"))
+    c.oblige("post/on_close-fires-once-and-the-connection-is-gone", sum(1 for e in ev if e[0] == "on_close") == 1 and r["final_closed"])
+
+
 @unit("C16", "ping-timeout", [(M, "WebSocketProtocol13.periodic_ping"), (M, "WebSocketProtocol13.start_pinging"), (M, "WebSocketProtocol13.ping_sleep_time")])
 def u_ping(c):
     from pyvc.standin import wsharness as H
